@@ -12,6 +12,9 @@ Definition mk_ode (l : list float) : ode float :=
   | _ => Ode (V3 0 0 0) (V3 0 0 0)
   end%float.
 
+Definition mk_v3f (l : list float) : vec3 float :=
+  match l with [a; b; c] => V3 a b c | _ => V3 0 0 0 end%float.
+
 Definition enc_branch (b : branch) : nat :=
   match b with BAccept => 0 | BHalve => 1 | BFinish true => 2 | BFinish false => 3 | BRetry => 4 end.
 Definition enc_outcome (x : outcome) : nat :=
@@ -45,6 +48,44 @@ Definition run_prop (minsub dint : float) (maxsub : nat) (step : float) (onb : b
             rev (map (fun c => fst c :: odel (snd c)) (snd (r_d r))),
             rev (map enc_gevent (sg_log (r_g r))))
   end.
+
+(** a HISTORY of calls on one propagator object (the constructor ran once,
+    before the first call).  The internal momentum [state_.mom] of call k is the
+    start of call k+1; the start POSITION and the geometry state of call k+1 are
+    re-read from the implementation's geometry at the end of call k: by
+    [C08_propagator_state_synced] the internal position equals the geometry
+    position after every call, and re-reading it keeps the two sides bit-aligned
+    (a chord is the difference of two positions, so an ulp of the position is a
+    large relative change of a tiny chord).  A stale internal position in the
+    implementation shows up as a differing argument of the first [advance].
+    Each call gets the absolute answers the implementation's oracles gave during
+    that call; logs are per call. *)
+Definition prop_out (r : presult (T:=float) sdriver sgeo) :=
+  ((r_distance r, r_boundary r, r_looping r),
+   (sg_onb (r_g r), v3l (sg_pos (r_g r)), v3l (sg_dir (r_g r))),
+   (r_nsub r, enc_outcome (r_outcome r), rev (map enc_branch (r_trace r))),
+   rev (map (fun c => fst c :: odel (snd c)) (snd (r_d r))),
+   rev (map enc_gevent (sg_log (r_g r)))).
+
+Definition hcall := (float * list (list float) * list (float * bool) * (bool * list float * list float))%type.
+
+Fixpoint prop_many (o : popts float) (mom : vec3 float) (calls : list hcall) :=
+  match calls with
+  | [] => ([], true)
+  | (step, dans, gans, (onb, pos, dir)) :: rest =>
+      let g0 := SGeo (map (fun a => Lin (fst a) (snd a)) gans) (mk_v3f pos) (mk_v3f dir) onb 0%float [] in
+      match propagate sdriver sgeo s_advance sg_pos sg_onb s_set_dir s_find_next
+              s_move_internal s_move_to_boundary o step (length dans) (map mk_dres dans, []) g0
+              (Ode (mk_v3f pos) mom) with
+      | None => ([], false)
+      | Some r => let '(out, ok) := prop_many o (o_mom (r_state r)) rest in (prop_out r :: out, ok)
+      end
+  end.
+
+Definition run_prop_many (minsub dint : float) (maxsub : nat) (dir : list float) (pmag : float)
+    (calls : list hcall) :=
+  let d := mk_v3f dir in
+  prop_many (POpts minsub dint maxsub) (V3 (pmag * vx d) (pmag * vy d) (pmag * vz d))%float calls.
 
 (** stepper answers: 18 floats mid(6) end(6) err(6) *)
 Definition mk_sres (l : list float) : sres float :=
